@@ -20,13 +20,10 @@ _Obj.__module__ = 'darr.toy'
 class ToySys(System):
     def __init__(self, cfg):
         self.cfg = cfg
-        self.root = None
+        self.root = 'g'
 
     def build(self):
-        if self.root is None:
-            self.root = fresh_dir('toy')
-        else:
-            os.makedirs(self.root, exist_ok=True)
+        os.makedirs(self.root, exist_ok=True)
         self.f = os.path.join(self.root, 'n')
         with open(self.f, 'w') as fh:
             fh.write('0')
